@@ -678,3 +678,64 @@ Lemma failed_then_crash : forall c w e, c_dirty w = false -> e <> ERestart ->
   running (c_mem (cstep c (cstep c w (CStep e false)) CCrash)) = [] /\
   c_disk (cstep c (cstep c w (CStep e false)) CCrash) = c_disk w.
 Proof. intros c w e Hd He. destruct e; try congruence; simpl; rewrite Hd; repeat split; reflexivity. Qed.
+
+(* ---- the normal form of a store history *)
+Definition crel (c : cfg) (w : cworld) (m : st) (pending : option event) : Prop :=
+  match pending with
+  | None => c_dirty w = false /\ c_disk w = tasks (c_mem w) /\ eqv (c_mem w) m
+  | Some e => c_dirty w = true /\ e <> ERestart /\ c_disk w = tasks m /\ eqv (c_mem w) (step c m e)
+  end.
+
+Lemma eqv_restart : forall a b lg lg', tasks a = tasks b -> eqv (reload (tasks a) lg) (reload (tasks b) lg').
+Proof. intros a b lg lg' H. unfold reload. split; simpl; [assumption | reflexivity]. Qed.
+
+Lemma cnormal_gen : forall c evs w m pending, crel c w m pending ->
+  eqv (c_mem (crun c w evs)) (run_events c m (cflat pending evs)).
+Proof.
+  intros c evs. induction evs as [|ce evs IH]; intros w m pending R.
+  - destruct pending as [e|]; simpl in *; [destruct R as (_ & _ & _ & E); exact E | destruct R as (_ & _ & E); exact E].
+  - unfold crun. simpl fold_left. fold (crun c (cstep c w ce) evs). destruct ce as [e written| |].
+    + destruct pending as [pe|].
+      * (* the lock is held: nothing happens *)
+        destruct R as (Hd & Hne & Hk & E).
+        assert (W : cstep c w (CStep e written) = w) by (destruct e; simpl; rewrite ?Hd; reflexivity). rewrite W.
+        assert (F : cflat (Some pe) (CStep e written :: evs) = cflat (Some pe) evs) by (destruct e; reflexivity). rewrite F.
+        apply IH. exact (conj Hd (conj Hne (conj Hk E))).
+      * destruct R as (Hd & Hk & E). pose proof E as [E1 _].
+        assert (NR : forall e', e' <> ERestart ->
+                  eqv (c_mem (crun c (cstep c w (CStep e' written)) evs))
+                      (run_events c m (cflat None (CStep e' written :: evs)))).
+        { intros e' Hne.
+          assert (S1 : cstep c w (CStep e' true) = mkC (step c (c_mem w) e') (tasks (step c (c_mem w) e')) false)
+            by (destruct e'; try congruence; simpl; rewrite Hd; reflexivity).
+          assert (S2 : cstep c w (CStep e' false) = mkC (step c (c_mem w) e') (c_disk w) true)
+            by (destruct e'; try congruence; simpl; rewrite Hd; reflexivity).
+          assert (F1 : cflat None (CStep e' true :: evs) = e' :: cflat None evs) by (destruct e'; try congruence; reflexivity).
+          assert (F2 : cflat None (CStep e' false :: evs) = cflat (Some e') evs) by (destruct e'; try congruence; reflexivity).
+          destruct written.
+          - rewrite S1, F1. simpl run_events. apply IH. simpl. split; [reflexivity|]. split; [reflexivity|]. apply step_eqv. exact E.
+          - rewrite S2, F2. apply IH. simpl. split; [reflexivity|]. split; [exact Hne|]. split; [congruence|]. apply step_eqv. exact E. }
+        destruct e; try (apply NR; discriminate).
+        simpl. apply IH. exact (conj Hd (conj Hk E)).
+    + destruct pending as [pe|].
+      * destruct R as (Hd & Hne & Hk & E). simpl cstep. rewrite Hd. simpl cflat. simpl run_events.
+        apply IH. simpl. split; [reflexivity|]. split; [reflexivity|]. exact E.
+      * destruct R as (Hd & Hk & E). simpl cstep. rewrite Hd. simpl cflat. apply IH. exact (conj Hd (conj Hk E)).
+    + (* crash *)
+      simpl cstep. assert (F : cflat pending (CCrash :: evs) = ERestart :: cflat None evs) by reflexivity. rewrite F.
+      simpl run_events. apply IH. destruct pending as [pe|].
+      * destruct R as (Hd & Hne & Hk & E). simpl. split; [reflexivity|]. split; [reflexivity|].
+        unfold restart, persist, reload. rewrite Hk. split; simpl; reflexivity.
+      * destruct R as (Hd & Hk & E). destruct E as [E1 E2]. simpl. split; [reflexivity|]. split; [reflexivity|].
+        unfold restart, persist, reload. rewrite Hk. split; simpl; [exact E1 | reflexivity].
+Qed.
+
+(* C04_store_normal_form: ANY history of steps whose write succeeds at once or is still failing, attempts made while the lock is
+   held, successful retries and crashes, from a state whose store is up to date, leaves the runner in a state equivalent (same
+   tasks with statuses and edges, same set of running handlers) to [run_events] of the history with the unacknowledged steps
+   dropped and an ERestart for every crash *)
+Theorem store_normal_form : forall c evs w, c_dirty w = false -> c_disk w = tasks (c_mem w) ->
+  eqv (c_mem (crun c w evs)) (run_events c (c_mem w) (cflat None evs)).
+Proof.
+  intros c evs w Hd Hk. apply cnormal_gen. simpl. split; [exact Hd|]. split; [exact Hk|]. split; [reflexivity | intros; reflexivity].
+Qed.
